@@ -128,7 +128,7 @@ func lowerLogic(s string) string {
 		}
 		if !inq {
 			for _, kw := range []string{" AND ", " OR ", "NOT "} {
-				if strings.HasPrefix(s[i:], kw) && (kw[0] == ' ' || i == 0 || s[i-1] == ' ' || s[i-1] == '(') {
+				if strings.HasPrefix(s[i:], kw) && (kw[0] == ' ' || i == 0 || s[i-1] == ' ' || s[i-1] == '(') && !(kw == "NOT " && strings.HasSuffix(s[:i], "IS ")) {
 					sb.WriteString(strings.ToLower(kw))
 					i += len(kw) - 1
 					goto next
